@@ -253,9 +253,50 @@ def run(ctx):
                     ok = True
                 if rem_y and not rem_x and op in ("Le", "Lt"):
                     ok = True
+            if api == "Bytes::slice":
+                # where the body starts: raw.len() - remainder.len()  (the header's actual length, whatever varint widths the peer chose)
+                st_ok = False
+                q_ = op_place(t["args"][1])
+                for pl_ in deep_places(cfc, t["args"][1], 6):
+                    for (bb_, jj_, rv_) in cfc.defs_of(pl_[0]):
+                        if jj_ != "term" and rv_[0] == "bin" and rv_[1] in ("SubWithOverflow", "Sub"):
+                            ra_, rb_ = value_roles(cfc, rv_[2]), value_roles(cfc, rv_[3])
+                            if any("Bytes::len" in r for r in ra_) and rb_ == {"call:<impl [T]>::len"}:
+                                st_ok = True
+                ctx.ob("R8", "%s|Bytes::slice #%d starts at raw.len() - remainder.len()" % (cfc.short, n + 1), st_ok, cfc.where(t["line"]),
+                       "the slice's lower bound derives from the measured header length: %s — a header length recomputed from the frame "
+                       "(encoding_size()) assumes minimal varints; a peer that pads its Length field makes the payload start too early: "
+                       "header bytes are delivered as data and the tail is cut off" % st_ok)
             ctx.ob("R8", "%s|%s #%d under remainder.len() >= body length" % (cfc.short, api, n + 1), ok, cfc.where(t["line"]),
                    "comparisons deciding this slice: %s — measuring the whole packet (Bytes::len) instead of the remainder lets a body "
                    "length that overshoots by up to the header size through, and the slice panics on attacker-chosen input" % seen[:3])
+    # ---------------------------------------------------------------- R9: no allocation sized by a decoded integer
+    ctx.rule("R9", "decoders do not reserve memory from a length or count they have merely parsed: no Vec / VecDeque / BytesMut / String "
+                   "with_capacity / reserve in the decode crates takes an argument derived from be_varint / VarInt::into_u64 / be_uN")
+    nalloc9, bad9 = 0, []
+    for b9 in prog.bodies.values():
+        if b9.crate != "qbase" or b9.kind in ("const", "promoted") or not re.search(r"^qbase::(frame|param|packet|cid|token|varint)", b9.short):
+            continue
+        for i9, t9 in b9.calls():
+            if re.search(r"Vec(<.*>|::<.*>)?::(with_capacity|reserve|reserve_exact)$|VecDeque(<.*>|::<.*>)?::(with_capacity|reserve)$|"
+                         r"BytesMut::(with_capacity|reserve)$|String::(with_capacity|reserve)$", callee(t9)) and t9["args"]:
+                nalloc9 += 1
+                for pl9 in deep_places(b9, t9["args"][-1], 6):
+                    for og9 in b9.trace_local(pl9[0]):
+                        if og9[0] == "call" and re.search(r"VarInt::into_u64$|VarInt::into_inner$|varint::be_varint$|be_u(8|16|32|64)$", callee(og9[2])):
+                            bad9.append((b9, t9))
+    ctx.stats["R9.allocation_sites_in_decoders"] = nalloc9
+    seen9 = set()
+    for (b9, t9) in bad9:
+        if (b9.short, t9["line"]) in seen9:
+            continue
+        seen9.add((b9.short, t9["line"]))
+        ctx.touch(b9)
+        ctx.ob("R9", "%s|%s sized by a decoded integer" % (b9.short, callee(t9).split("::")[-1]), False, b9.where(t9["line"]),
+               "capacity derives from a value parsed out of the packet (up to 2^62-1): `capacity overflow` panic or a multi-gigabyte reservation "
+               "from one small frame")
+    ctx.ob("R9", "qbase decoders|no allocation sized by a decoded integer", not bad9, "qbase/src",
+           "allocation calls examined in the decode modules: %d; sized by a parsed value: %d" % (nalloc9, len(seen9)))
     # ---------------------------------------------------------------- R6: dispatcher covers what the decoder admits
     ctx.rule("R6", "every frame kind that FrameType::belongs_to admits into a packet type has a non-panicking arm in that "
                    "space's frame dispatcher (the Initial and Handshake dispatchers end in `_ => unreachable!()`)")
